@@ -533,7 +533,7 @@ def cases(ctx):
     for lim in (512, 513, 520, 600):
         for delta in range(-16, 17):
             k += 1
-            for tsig in ([tsigs[k % len(tsigs)]] if ctx.quick else tsigs):
+            for tsig in ([tsigs[k % len(tsigs)]] if ctx.quick else [tsigs[k % len(tsigs)], tsigs[(k + 1) % len(tsigs)]]):
                 withq = rb.random() < 0.5
                 secs = [[[qn, g.IN, g.A, 0, None, 0, []]] if withq else [], [], [], []]
                 if rb.random() < 0.3:
